@@ -437,6 +437,215 @@ theorem c10_overshoot (P : RsP) (hfc : 10 ≤ P.fc)
     obtain ⟨hrel0, _⟩ := hst
     omega
 
+/-! ### the upward direction (mirror image) -/
+
+def MovU (s : RsT) : Prop :=
+  s.tstate = 2 ∧ s.dir = 2 ∧ s.rel = 2 ∧ s.pend = 0 ∧ 100 ≤ s.pos ∧ s.pos ≤ 10100
+
+def psiU (P : RsP) (s : RsT) : Nat := (10100 - s.pos) * (P.fo * 1000) + 10000 * s.upT
+
+def CarryOkU (P : RsP) (s : RsT) : Prop :=
+  10000 * s.upT < P.fo * 1000 + 10000 + 100000 * P.fo * (taskMargin P + 1)
+
+theorem account_movU (P : RsP) (s : RsT) (dt : Nat) (h : MovU s) :
+    account P s dt =
+      { s with pos := (mvTick (C09.rsCfg P.fo true) { pos := s.pos, tilt := 0, time := s.upT } dt).pos,
+               upT := (mvTick (C09.rsCfg P.fo true) { pos := s.pos, tilt := 0, time := s.upT } dt).time,
+               downT := 0 } := by
+  obtain ⟨hts, _, hrel, _, hlo, hhi⟩ := h
+  unfold account
+  rw [if_pos hrel]
+  have hk : known s.pos = true := known_of s.pos ⟨hlo, hhi⟩
+  simp only [calibrateStep, hk, Bool.not_true, Bool.false_and, Bool.false_eq_true, if_false]
+  simp [hts, hrel, mvTick, C09.rsCfg]
+
+theorem task_reached_stops_up (P : RsP) (s : RsT) (h : MovU s) (htg : s.target < 100)
+    (hreach : s.pos - 100 ≤ s.target * 100)
+    (hnm : ¬ (s.pos - 100 = 0 ∧ inMargin P.fo s.upT (taskMargin P) = true)) :
+    (taskStep P s).rel = 0 ∧ (taskStep P s).tstate = 2 ∧ (taskStep P s).dir = 0 ∧ (taskStep P s).pos = s.pos ∧
+    (taskStep P s).pend = 0 := by
+  obtain ⟨hts, hdir, hrel, hpend, hlo, hhi⟩ := h
+  have hk : known s.pos = true := known_of s.pos ⟨hlo, hhi⟩
+  unfold taskStep
+  rw [if_neg (by omega)]
+  simp only [hk, Bool.not_true, Bool.false_eq_true, if_false]
+  have e1 : ¬ (s.tstate = 1) := by omega
+  simp only [e1, if_false]
+  have e2 : ¬ (s.tstate = 2 ∧ s.dir = 0) := by omega
+  simp only [e2, if_false]
+  have e3 : s.tstate = 2 ∧ ((s.dir = 2 ∧ s.pos - 100 ≤ s.target * 100) ∨ (s.dir = 1 ∧ s.pos - 100 ≥ s.target * 100)) :=
+    ⟨hts, Or.inl ⟨hdir, hreach⟩⟩
+  rw [if_pos e3]
+  have e4 : ¬ (s.pos - 100 = 10000 ∧ inMargin P.fc s.downT (taskMargin P) = true) := by
+    intro hh; omega
+  rw [if_neg hnm, if_neg e4]
+  simp [relOff, hts]
+
+theorem task_not_reached_runs_up (P : RsP) (s : RsT) (h : MovU s) (hb : s.pos - 100 > s.target * 100) :
+    taskStep P s = s := by
+  obtain ⟨hts, hdir, hrel, hpend, hlo, hhi⟩ := h
+  have hk : known s.pos = true := known_of s.pos ⟨hlo, hhi⟩
+  unfold taskStep
+  rw [if_neg (by omega)]
+  simp only [hk, Bool.not_true, Bool.false_eq_true, if_false]
+  have e1 : ¬ (s.tstate = 1) := by omega
+  simp only [e1, if_false]
+  have e2 : ¬ (s.tstate = 2 ∧ s.dir = 0) := by omega
+  simp only [e2, if_false]
+  have e3 : ¬ (s.tstate = 2 ∧ ((s.dir = 2 ∧ s.pos - 100 ≤ s.target * 100) ∨ (s.dir = 1 ∧ s.pos - 100 ≥ s.target * 100))) := by
+    intro hh; rcases hh.2 with h2 | h1
+    · omega
+    · omega
+  rw [if_neg e3]
+
+theorem mov_tick_up (P : RsP) (hfo : 10 ≤ P.fo)
+    (hcap : P.fo / 10 + 1 + 10 * P.fo * (taskMargin P + 1) ≤ 600000000)
+    (s : RsT) (dt : Nat) (h : MovU s) (htg : s.target < 100) :
+    let s' := rsTick P s dt
+    s'.target = s.target ∧
+    ((Stopped s' ∧ s'.pos - 100 ≤ s.target * 100 ∧
+        (s.pos - s'.pos) * (P.fo * 1000) ≤ 10000 * s.upT + 10000 * dt + 10000 ∧ s'.pos ≤ s.pos) ∨
+     (MovU s' ∧ CarryOkU P s' ∧ psiU P s + 10000 * dt ≤ psiU P s' ∧ s'.pos ≤ s.pos)) := by
+  intro s'
+  have hacc := account_movU P s dt h
+  obtain ⟨hts, hdir, hrel, hpend, hlo, hhi⟩ := h
+  have td := C09.tick_up P.fo hfo { pos := s.pos, tilt := 0, time := s.upT } dt ⟨hlo, hhi⟩
+  have hr := C09.c09_pos_range_mono (C09.rsCfg P.fo true) { pos := s.pos, tilt := 0, time := s.upT + dt } ⟨hlo, hhi⟩
+  simp only at td
+  generalize hm : mvTick (C09.rsCfg P.fo true) { pos := s.pos, tilt := 0, time := s.upT } dt = m at td hacc
+  have hmr : 100 ≤ m.pos ∧ m.pos ≤ 10100 ∧ m.pos ≤ s.pos := by
+    have : m = movePos (C09.rsCfg P.fo true) { pos := s.pos, tilt := 0, time := s.upT + dt } := by rw [← hm]; rfl
+    rw [this]; exact ⟨hr.1, hr.2.1, hr.2.2.1 rfl⟩
+  unfold C09.psiUp at td
+  simp only at td
+  have hMa : MovU (account P s dt) := by
+    rw [hacc]; exact ⟨hts, hdir, hrel, hpend, hmr.1, hmr.2.1⟩
+  have hs' : s' = commStep (taskStep P (account P s dt)) dt := rfl
+  by_cases hreach : m.pos - 100 ≤ s.target * 100
+  · by_cases hmg : (m.pos - 100 = 0 ∧ inMargin P.fo m.time (taskMargin P) = true)
+    · have htask : taskStep P (account P s dt) = account P s dt := by
+        have hk : known m.pos = true := known_of m.pos ⟨hmr.1, hmr.2.1⟩
+        rw [hacc]
+        unfold taskStep
+        rw [if_neg (by simp only; omega)]
+        simp only [hk, Bool.not_true, Bool.false_eq_true, if_false]
+        have e1 : ¬ (s.tstate = 1) := by omega
+        simp only [e1, if_false]
+        have e2 : ¬ (s.tstate = 2 ∧ s.dir = 0) := by omega
+        simp only [e2, if_false]
+        rw [if_pos ⟨hts, Or.inl ⟨hdir, hreach⟩⟩]
+        rw [if_pos hmg]
+      have hb := inMargin_bound P.fo m.time (taskMargin P) hmg.2
+      have hk := commStep_keep (account P s dt) dt (by
+        rw [hacc]; simp only
+        have : 10 * P.fo * taskMargin P + 10 * P.fo = 10 * P.fo * (taskMargin P + 1) := by rw [Nat.mul_add]; simp
+        omega) (by rw [hacc]; simp)
+      rw [hs', htask]
+      obtain ⟨a1, a2, a3, a4, a5, a6, a7, a8⟩ := hk
+      refine ⟨by rw [a7, hacc], Or.inr ⟨?_, ?_, ?_, ?_⟩⟩
+      · unfold MovU; rw [a1, a2, a3, a4, a5]; exact hMa
+      · unfold CarryOkU; rw [a8, hacc]; simp only
+        have e : 100000 * P.fo * (taskMargin P + 1) = 10000 * (10 * P.fo * (taskMargin P + 1)) := by
+          rw [← Nat.mul_assoc, ← Nat.mul_assoc]
+        have : 10 * P.fo * taskMargin P + 10 ≤ 10 * P.fo * (taskMargin P + 1) := by
+          rw [Nat.mul_add]; omega
+        omega
+      · unfold psiU; rw [a5, a8, hacc]; simp only; omega
+      · rw [a5, hacc]; exact hmr.2.2
+    · have hst := task_reached_stops_up P (account P s dt) hMa (by rw [hacc]; exact htg)
+        (by rw [hacc]; exact hreach) (by rw [hacc]; exact hmg)
+      obtain ⟨r1, r2, r3, r4, r5⟩ := hst
+      have hk := commStep_off (taskStep P (account P s dt)) dt r1 r5
+      obtain ⟨k1, k2, k3, k4, k5, k6⟩ := hk
+      have htg' : (taskStep P (account P s dt)).target = s.target := by
+        have hk' : known m.pos = true := known_of m.pos ⟨hmr.1, hmr.2.1⟩
+        rw [hacc]; unfold taskStep
+        rw [if_neg (by simp only; omega)]
+        simp only [hk', Bool.not_true, Bool.false_eq_true, if_false]
+        have e1 : ¬ (s.tstate = 1) := by omega
+        simp only [e1, if_false]
+        have e2 : ¬ (s.tstate = 2 ∧ s.dir = 0) := by omega
+        simp only [e2, if_false]
+        split <;> (try split) <;> (try split) <;> simp [relOff]
+      rw [hs']
+      refine ⟨by rw [k6, htg'], Or.inl ⟨⟨k1, k4, by rw [k5, r4, hacc]; exact hmr.1, by rw [k5, r4, hacc]; exact hmr.2.1,
+        Or.inr ⟨by rw [k2, r2], by rw [k3, r3]⟩⟩, ?_, ?_, ?_⟩⟩
+      · rw [k5, r4, hacc]; exact hreach
+      · rw [k5, r4, hacc]; simp only
+        have e : (10100 - m.pos) * (P.fo * 1000) = (10100 - s.pos) * (P.fo * 1000) + (s.pos - m.pos) * (P.fo * 1000) := by
+          rw [← Nat.add_mul]; congr 1; omega
+        have := td.2.1
+        omega
+      · rw [k5, r4, hacc]; exact hmr.2.2
+  · have hb : (account P s dt).pos - 100 > (account P s dt).target * 100 := by rw [hacc]; simp only; omega
+    have htask := task_not_reached_runs_up P (account P s dt) hMa hb
+    have hgt : 100 < m.pos := by omega
+    have hcar := td.2.2 hgt
+    have hmt : m.time ≤ P.fo / 10 + 1 := by omega
+    have hk := commStep_keep (account P s dt) dt (by
+      rw [hacc]; simp only
+      generalize 10 * P.fo * (taskMargin P + 1) = X at hcap
+      omega) (by rw [hacc]; simp)
+    rw [hs', htask]
+    obtain ⟨a1, a2, a3, a4, a5, a6, a7, a8⟩ := hk
+    refine ⟨by rw [a7, hacc], Or.inr ⟨?_, ?_, ?_, ?_⟩⟩
+    · unfold MovU; rw [a1, a2, a3, a4, a5]; exact hMa
+    · unfold CarryOkU; rw [a8, hacc]; simp only
+      exact Nat.lt_add_right _ hcar
+    · unfold psiU; rw [a5, a8, hacc]; simp only; omega
+    · rw [a5, hacc]; exact hmr.2.2
+
+theorem mov_run_up (P : RsP) (hfo : 10 ≤ P.fo)
+    (hcap : P.fo / 10 + 1 + 10 * P.fo * (taskMargin P + 1) ≤ 600000000) (tg : Nat) (htg100 : tg < 100) :
+    ∀ (dts : List Nat) (s : RsT), MovU s → s.target = tg →
+      (Stopped (rsRun P s dts) ∧ (rsRun P s dts).pos - 100 ≤ tg * 100 ∧ (rsRun P s dts).pos ≤ s.pos) ∨
+      (MovU (rsRun P s dts) ∧ CarryOkU P (rsRun P s dts) ∧ (rsRun P s dts).target = tg ∧
+        psiU P s + 10000 * C09.sum dts ≤ psiU P (rsRun P s dts) ∧ (rsRun P s dts).pos ≤ s.pos ∨
+       (dts = [] ∧ MovU (rsRun P s dts))) := by
+  intro dts
+  induction dts with
+  | nil => intro s h _; right; right; exact ⟨rfl, h⟩
+  | cons dt dts ih =>
+    intro s h htg
+    unfold rsRun
+    have t := mov_tick_up P hfo hcap s dt h (by omega)
+    simp only at t
+    obtain ⟨ttg, tcase⟩ := t
+    rcases tcase with ⟨hst, hpos, _, hmono⟩ | ⟨hmv, hcar, hpsi, hmono⟩
+    · have r := stopped_run P dts (rsTick P s dt) hst
+      left
+      exact ⟨r.1, by rw [r.2.1, htg] at *; exact hpos, by rw [r.2.1]; exact hmono⟩
+    · have r := ih (rsTick P s dt) hmv (by rw [ttg, htg])
+      rcases r with ⟨r1, r2, r3⟩ | ⟨r1, r2, r3, r4, r5⟩ | ⟨r1, r2⟩
+      · left; exact ⟨r1, r2, by omega⟩
+      · right; left
+        exact ⟨r1, r2, r3, by simp only [C09.sum]; omega, by omega⟩
+      · right; left
+        subst r1
+        simp only [rsRun] at r2 ⊢
+        exact ⟨hmv, hcar, by rw [ttg, htg], by simp [C09.sum]; omega, hmono⟩
+
+/-- C10 (convergence, upward): the mirror statement for a target above the estimate's complement — for every
+    sequence of callbacks whose duration reaches the travel to the upper end stop plus the task's margin, the
+    motor is off with the estimate at or above (numerically at or below) the target, and it never moved back -/
+theorem c10_task_converges_up (P : RsP) (hfo : 10 ≤ P.fo)
+    (hcap : P.fo / 10 + 1 + 10 * P.fo * (taskMargin P + 1) ≤ 600000000) (s : RsT) (h : MovU s)
+    (htg100 : s.target < 100) (dts : List Nat) (hne : dts ≠ [])
+    (hlong : 10000 * (P.fo * 1000) + P.fo * 1000 + 10000 + 100000 * P.fo * (taskMargin P + 1)
+               ≤ psiU P s + 10000 * C09.sum dts) :
+    Stopped (rsRun P s dts) ∧ (rsRun P s dts).pos - 100 ≤ s.target * 100 ∧ (rsRun P s dts).pos ≤ s.pos := by
+  have r := mov_run_up P hfo hcap s.target htg100 dts s h rfl
+  rcases r with r | ⟨hm, hc, _, hpsi, _⟩ | ⟨he, _⟩
+  · exact r
+  · exfalso
+    obtain ⟨_, _, _, _, hlo, _⟩ := hm
+    unfold CarryOkU at hc
+    unfold psiU at hpsi hlong
+    have : (10100 - (rsRun P s dts).pos) * (P.fo * 1000) ≤ 10000 * (P.fo * 1000) := Nat.mul_le_mul_right _ (by omega)
+    generalize 100000 * P.fo * (taskMargin P + 1) = X at *
+    omega
+  · exact absurd he hne
+
 /-- from rest: the first callback after a task was added towards a target below the estimate starts the motor
     downwards (unless a zero margin forbids driving a shutter that already reports 100 %) -/
 theorem task_start_down (P : RsP) (s : RsT) (dt : Nat)
